@@ -11,7 +11,9 @@ from .spec import FIELDS, FIELD_WIDTH
 # generated (line numbers, interval, delay) but kept structurally valid
 RESERVED = {189, 193, 37, 109, 115, 117, 215}   # 215: scalar segyio applies to the delay time
 FREE_FIELDS = [f for f in FIELDS if f not in RESERVED]
-FIELD_KINDS = ["const", "vary", "dup", "extreme", "negvary", "mid"]   # "mid": first == last, differs between
+# "mid": first == last, differs between; "flag": two values {0, C}; "zerofirst": varies, 0 in the first trace;
+# "perline": a function of the trace's inline number (a swath number, a fold per line)
+FIELD_KINDS = ["const", "vary", "dup", "extreme", "negvary", "mid", "flag", "zerofirst", "perline"]
 FREE_BIN = [3201, 3205, 3209, 3227, 3233, 3235, 3255]
 
 
@@ -61,6 +63,23 @@ def field_columns(fields, n, base):
             elif a[0] == a[-1]:
                 a[-1] = a[0] - 1 if a[0] > lo else a[0] + 1
             cols[c] = a
+        elif k == "flag":
+            cval = int(rng.integers(1, min(hi, 30000) + 1))
+            a = np.where(rng.integers(0, 2, n) == 1, cval, 0).astype(np.int64)
+            a[0], a[-1] = (0, cval) if rng.integers(0, 2) == 0 else (cval, 0)
+            cols[c] = a
+        elif k == "zerofirst":
+            a = rng.integers(1, min(hi, 10 ** 6) + 1, n).astype(np.int64)
+            a[0] = 0
+            cols[c] = a
+        elif k == "perline":
+            key = np.asarray(base.get(189, np.arange(n))).astype(np.int64)
+            key = key if len(np.unique(key)) > 1 else np.arange(n)
+            a = (np.abs(key) * 7 + int(rng.integers(1, 1000))) % min(hi, 30000)
+            if a[0] == a[-1]:
+                a = a.copy()
+                a[-1] = a[0] + 1
+            cols[c] = a.astype(np.int64)
         elif k == "dup":
             pending.append((c, int(d["of"])))
     for c, of in pending:
@@ -117,6 +136,15 @@ def segy_source(draw, geom="regular", max_dim=12, max_ns=40, fields=True, allow_
         else:
             d["il"] = [draw(st.integers(-40, 3000)), draw(st.integers(1, 7))]
             d["xl"] = [draw(st.integers(-40, 3000)), draw(st.integers(1, 7))]
+            if draw(st.integers(0, 3)) == 0:
+                # negative inline numbers (all of them, or of both signs), never the number 0 itself
+                # (K01: the format marks holes by inline number 0)
+                step = d["il"][1]
+                start = -draw(st.integers(1, 60))
+                while any(start + step * i == 0 for i in range(d["n_il"])):
+                    start -= 1
+                d["il"] = [start, step]
+            corner0 = draw(st.integers(0, 7)) == 0
             grid = d["n_il"] * d["n_xl"]
             # a proper subset in which every inline and crossline keeps at least one trace:
             # first one trace per line (a drawn permutation-like assignment), then a random subset
@@ -136,6 +164,17 @@ def segy_source(draw, geom="regular", max_dim=12, max_ns=40, fields=True, allow_
                     if sum(1 for h in keep if h // d["n_xl"] == i) > 1 and sum(1 for h in keep if h % d["n_xl"] == x) > 1:
                         keep.discard(g)
                         break
+            if corner0 and d["n_il"] >= 3:
+                # crossline numbering from 0, first and last trace of the file both on crossline 0: every inline
+                # but the last is complete except for one hole, the last inline holds one trace
+                d["xl"] = [0, d["xl"][1]]
+                keep = {i * d["n_xl"] + x for i in range(d["n_il"] - 1) for x in range(d["n_xl"])}
+                h = draw(st.integers(1, d["n_xl"] - 1))
+                keep.discard(1 * d["n_xl"] + h)
+                if d["n_xl"] >= 3:
+                    # a second hole, so that the trace count is not a whole number of inlines (K02)
+                    keep.discard(1 * d["n_xl"] + (h % (d["n_xl"] - 1)) + 1 if (h % (d["n_xl"] - 1)) + 1 != h else 1 * d["n_xl"] + 1 + (h % 2))
+                keep.add((d["n_il"] - 1) * d["n_xl"])
             d["keep"] = sorted(keep)
     else:
         d["n_tr"] = draw(st.one_of(st.integers(2, max_dim * max_dim), st.integers(2, max_dim * max_dim), st.sampled_from([127, 128, 129, 256])))
